@@ -119,7 +119,22 @@ impl EventGen for ReuseElement {
             pos.update_size(&sz);
         }
         pos.update_shape(&instance_element.name);
-        pos.set_position_attrs(&mut instance_element);
+        if matches!(instance_element.name.as_str(), "line" | "text") {
+            // no width / height to place it by: the instance is moved as it is
+            instance_element.resolve_position(context).inspect_err(|_| {
+                context.pop_element();
+            })?;
+            let own_bbox = context
+                .get_element_bbox(&instance_element)
+                .inspect_err(|_| {
+                    context.pop_element();
+                })?;
+            if let Some(own_bbox) = own_bbox {
+                pos.move_by_attrs(&mut instance_element, &own_bbox);
+            }
+        } else {
+            pos.set_position_attrs(&mut instance_element);
+        }
 
         let res = if let (false, Some((start, end))) = (
             instance_element.is_empty_element(),
